@@ -14,7 +14,7 @@ import oracle as O
 
 A = args()
 MODE = (A.rest or ["C03"])[0]
-MODELS = {"x86": ["zen2"], "aarch64": ["a64fx"]}
+MODELS = {"x86": ["zen2"], "aarch64": ["a64fx", "n1"]}
 if A.tier == "thorough":
     MODELS = {"x86": ["zen2", "ivb", "hsw", "zen1"], "aarch64": ["a64fx", "tx2", "n1"]}
 isolate_models([m for v in MODELS.values() for m in v])
@@ -32,7 +32,7 @@ VOCAB = {
     "aarch64": [
         "add x1, x2, x3", "add x2, x2, #8", "mov x3, x1", "add w1, w2, w3", "fadd d0, d1, d2", "fmla v0.2d, v1.2d, v2.2d",
         "ldr x1, [x2, #8]", "ldr x3, [x2], #8", "ldr d1, [x2, #16]!", "str x1, [x3, #8]", "str d0, [x2], #8",
-        "subs x1, x1, #1", "cmp x1, x3", "b.ne .L1", "fadd s1, s0, s2", "ldp d1, d2, [x3]", "fmul v1.2d, v0.2d, v2.2d",
+        "subs x1, x1, #1", "cmp x1, x3", "b.ne .L1", "fadd s1, s0, s2", "ldp d1, d2, [x3]", "fmul v1.2d, v0.2d, v2.2d", "ldr q0, [x2], #16",
     ],
 }
 
